@@ -113,7 +113,7 @@ func init() {
 				names[m.Name] = true
 			}
 			for n := range names {
-				if names[n+"Func"] || names[n+"Calls"] || names["Reset"+n+"Calls"] || n == "calls" || (n == "ResetCalls" && c.Cfg.WithResets) {
+				if names[n+"Func"] || names[n+"Calls"] || names["Reset"+n+"Calls"] || n == "calls" || (n == "ResetCalls" && c.Cfg.WithResets) || (n == "Reset" && c.Cfg.WithResets) {
 					return true
 				}
 			}
